@@ -202,8 +202,33 @@ def parse_verus(path, mapf, rc, so, se):
     return res
 
 
-def verify_unit(root, unit, workdir, rlimit, seed, canary=None, threads=8, flags_off=False):
+def insert_lemma_canary(path, lemma):
+    """vacuity canary for a lemma that lives in overlay text: `assert(false);` before the closing brace of its body"""
+    txt = open(path).read()
+    i = txt.find("proof fn %s(" % lemma)
+    if i < 0:
+        raise Undecided("lemma canary: %s not found" % lemma)
+    j = txt.find("\n{", i)
+    depth = 0
+    k = j + 1
+    while k < len(txt):
+        if txt[k] == "{":
+            depth += 1
+        elif txt[k] == "}":
+            depth -= 1
+            if depth == 0:
+                break
+        k += 1
+    out = path[:-3] + "_lc_%s.rs" % re.sub(r"\W+", "_", lemma)
+    open(out, "w").write(txt[:k] + "    assert(false); /* vacuity canary */\n" + txt[k:])
+    return out
+
+
+def verify_unit(root, unit, workdir, rlimit, seed, canary=None, threads=8, flags_off=False, lemma_canary=None):
     path, mapf = extract_unit(root, unit, workdir, canary=canary, flags_off=flags_off)
+    if lemma_canary:
+        path = insert_lemma_canary(path, lemma_canary)
+        canary = "lemma:" + lemma_canary
     rc, so, se, dt, cmd = run_verus(path, rlimit, seed, threads=threads)
     r = parse_verus(path, mapf, rc, so, se)
     if r["status"] == "resource":
@@ -442,7 +467,8 @@ def check_property(root, pid, tier, seed):
     base = load_baseline(root)
     trusted = load_trusted(root)
     active_findings, fixed_findings = load_findings(root)
-    work = os.path.join(root, "work", pid)
+    # a run against a scratch copy (self-test) gets its own work directory
+    work = os.path.join(root, "work", pid if REPO == "/repo" else "%s-%s" % (pid, hashlib.md5(REPO.encode()).hexdigest()[:8]))
     shutil.rmtree(work, ignore_errors=True)
     os.makedirs(work, exist_ok=True)
     rlimit = 60 if tier == "quick" else 300
@@ -460,6 +486,8 @@ def check_property(root, pid, tier, seed):
                 canaries = list(dict.fromkeys(canaries + u.get("deciding", [])))
             for c in canaries:
                 futs[ex.submit(verify_unit, root, u["unit"], work, rlimit, seed, c, 3)] = ("canary", u, c)
+            for lc in u.get("lemma_canary", []):
+                futs[ex.submit(verify_unit, root, u["unit"], work, rlimit, seed, None, 3, False, lc)] = ("canary", u, "lemma:" + lc)
             if tier == "thorough":
                 for s2 in (seed + 1, seed + 2):
                     futs[ex.submit(verify_unit, root, u["unit"], os.path.join(work, "seed%d" % s2), rlimit, s2, None, 3)] = ("seed", u, s2)
@@ -503,8 +531,11 @@ def check_property(root, pid, tier, seed):
                 if it.get("kind") in ("struct", "enum"):
                     continue
                 deciding = it["name"] in u.get("deciding", [])
+                is_stub = it.get("kind") == "stub"
                 fn_under_contract.append({"function": it["name"], "selector": it["selector"], "repo": "%s:%d-%d" % (os.path.relpath(it["repo_file"], REPO), it["repo_lines"][0], it["repo_lines"][1]),
-                                          "unit": u["unit"], "carries_property": deciding, "loops": it.get("loops"), "closures": it.get("closures")})
+                                          "unit": u["unit"], "carries_property": deciding and not is_stub,
+                                          "status": "contract assumed in this unit (generated stub), proved in the callee's own unit" if is_stub else "body verified in this unit",
+                                          "loops": it.get("loops"), "closures": it.get("closures")})
                 for k, v in it.get("rule_counts", {}).items():
                     rule_counts[k] = rule_counts.get(k, 0) + v
                 for c in it.get("cuts", []):
@@ -568,8 +599,9 @@ def check_property(root, pid, tier, seed):
                 missing = [k for k in bfun if k not in r["functions"]]
                 if missing:
                     undecided.append("unit %s: baseline functions no longer reported by Verus: %s" % (u["unit"], missing))
-            for k, v in sorted(r["functions"].items()):
-                if v["mode"] in ("exec", "proof") and len(samples) < 12:
+            dec = u.get("deciding", [])
+            for k, v in sorted(r["functions"].items(), key=lambda kv: (0 if kv[0].split("::")[-1] in dec else 1, kv[0])):
+                if v["mode"] in ("exec", "proof") and len(samples) < 16:
                     samples.append({"obligation": "%s::%s" % (u["unit"], k), "mode": v["mode"], "discharged": v["success"], "smt_ms": v["ms"], "rlimit": v["rlimit"]})
         elif kind == "canary":
             # the canary appends assert(false) to the body: it MUST fail with exactly an assertion failure
@@ -650,7 +682,7 @@ def check_property(root, pid, tier, seed):
     obligations = total_ver + (total_err if not out_of_scope else len([v for v in violations if not v.get("kani")]) + len(known))
     discharged = total_ver
     n_canary_ok = sum(1 for c in canary_report if c["refuted_as_expected"])
-    trusted_base = ["rustc 1.98.1 / Verus 0.2026.09.13 / Z3 (bundled)", "mtx extractor rules R1-R12 (DESIGN.md §2.1)"] + P.get("assumptions", [])
+    trusted_base = ["rustc 1.98.1 / Verus 0.2026.09.13 / Z3 (bundled)", "mtx extractor rules R1-R14 (DESIGN.md §2)"] + P.get("assumptions", [])
     if kani_report:
         trusted_base.append("Kani 0.68 / CBMC 6.11 (bounded components listed under coverage.kani)")
     ev = {
